@@ -27,6 +27,12 @@ func H05Order() {
 		parent.Templates = append(parent.Templates, &chart.File{Name: "templates/NOTES.txt", Data: []byte("parent notes")})
 	}
 	parent.Templates = append(parent.Templates, &chart.File{Name: "templates/z.yaml", Data: []byte(cmDoc("z", "1", ""))})
+	if ndBool("caseVariantFiles") {
+		// two files whose paths differ only in letter case, same kind
+		parent.Templates = append(parent.Templates, &chart.File{Name: "templates/Z.yaml", Data: []byte(cmDoc("zz", "2", ""))})
+		parent.Templates = append(parent.Templates, &chart.File{Name: "templates/hk.yaml", Data: []byte(hookDoc("hb", "pre-install", 0, ""))})
+		parent.Templates = append(parent.Templates, &chart.File{Name: "templates/Hk.yaml", Data: []byte(hookDoc("ha", "pre-install", 0, ""))})
+	}
 	s1 := &chart.Chart{Metadata: &chart.Metadata{Name: "s1", Version: "0.1.0", APIVersion: chart.APIVersionV2}}
 	s2 := &chart.Chart{Metadata: &chart.Metadata{Name: "s2", Version: "0.1.0", APIVersion: chart.APIVersionV2}}
 	if withSub1Notes {
